@@ -8,12 +8,15 @@
 (* exist.  The decoder (Decoder::read_frame) then runs over the prefix:    *)
 (*   - a frame is delivered only if all its bytes (incl. CRC-16) are there *)
 (*   - with a known total, running out of data is an error;                *)
-(*   - with an unknown total, EOF while reading a frame HEADER is the end  *)
-(*     of the stream, EOF inside a frame body is an error.                 *)
+(*   - with an unknown total, data ending exactly BETWEEN frames is the    *)
+(*     end of the stream; data ending inside a frame (header or body) is   *)
+(*     an error.  ("header_eof_is_eos" in Defects: the pinned tree took    *)
+(*     EOF anywhere inside a frame header for the end of the stream.)      *)
 (***************************************************************************)
 EXTENDS Integers, Sequences, TLC
 
-CONSTANTS MetaLen, FrameLen, FrameBytes, HeaderBytes, Declared   \* Declared = -1: unknown total
+CONSTANTS MetaLen, FrameLen, FrameBytes, HeaderBytes, Declared,   \* Declared = -1: unknown total
+          Defects
 
 N == Len(FrameLen)
 RECURSIVE EndOf(_)
@@ -37,7 +40,8 @@ ReadFrame ==
             ELSE \* the data runs out inside (or right before) frame `next`
                  LET avail == cut - EndOf(next - 1) IN
                  /\ UNCHANGED <<next, delivered>>
-                 /\ ending' = IF Declared = -1 /\ avail < HeaderBytes THEN "eos" ELSE "err"
+                 /\ ending' = IF Declared = -1 /\ (avail = 0 \/ ("header_eof_is_eos" \in Defects /\ avail < HeaderBytes))
+                              THEN "eos" ELSE "err"
 
 Next == ReadFrame
 Spec == Init /\ [][Next]_vars
@@ -49,4 +53,6 @@ ExactlyTheCompleteFrames == ending \in {"eos", "err"} => delivered = Complete
 NeverMore == delivered <= Complete
 CleanEndOnlyWhenEntitled == ending = "eos" => (Declared = -1 \/ delivered = Declared)
 OpenFailsInsideMetadata == cut < MetaLen => (ending = "openerr" /\ delivered = 0)
+\* C05: a cut is reported unless what is left is itself a complete stream
+TruncationReported == (ending = "eos" /\ Declared = -1) => \E i \in 0..N : EndOf(i) = cut
 =======================================================================
